@@ -69,7 +69,10 @@ def run(prog: Program, rep: Report, tier: str):
     got = Interp(prog).eval_function(L + "_get_contrastive_idxs", args)
     want = eval_ref_function(prog, m, IDXS_REF, args)
     site = f"{m.relpath}:{fn.lineno}"
-    compare(rep, "C17.idxs", site, "_get_contrastive_idxs", got, want, "contrastive index selection")
+    # filter_vmap maps array arguments only: the two static ints may just as well be closed over instead of passed
+    alt = eval_ref_function(prog, m, IDXS_REF.replace("def _get_idxs(key, idx, batch_size, n_contrastive):", "def _get_idxs(key, idx):")
+                            .replace("(keys, jnp.arange(batch_size), batch_size, n_contrastive)", "(keys, jnp.arange(batch_size))"), args)
+    compare(rep, "C17.idxs", site, "_get_contrastive_idxs", got, want, "contrastive index selection", alternatives=(alt,))
     # explicit: replace=False literal (the library default is True)
     calls = [s for s in walk(got) if s[0] == "call" and s[1] == ("ext", "jax.random.choice")]
     ok = bool(calls) and all(dict(c2[3]).get("replace") == C(False) for c2 in calls)
